@@ -3,7 +3,7 @@ import core
 from core import Case, enc_b, enc_i, psec
 
 EXTRA_MODULES = ["PsecModel.Props.MacCbc"]     # composition with des.encrypt_tdes_cbc (C19)
-OBLIGATIONS = ["Psec.Props.MacCbc.cbcMac_is_last_cbc_block", "Psec.Props.C07.cbcMac_des_eq_mac1", "Psec.Props.C07.cbcMac_aes_eq_mac1", "Psec.Props.C07.cbcMac_default_length", "Psec.Props.C07.mac1_truncation", "Psec.Props.C07.mac3_truncation", "Psec.Props.C07.retailMac_eq_mac3", "Psec.Props.C07.retail_single_block", "Psec.Props.C07.mac_bad_padding"]
+OBLIGATIONS = ["Psec.Props.MacCbc.cbcMac_is_last_cbc_block", "Psec.Props.MacCbc.retailMac_is_cbc_then_ecb", "Psec.Props.C07.cbcMac_des_eq_mac1", "Psec.Props.C07.cbcMac_aes_eq_mac1", "Psec.Props.C07.cbcMac_default_length", "Psec.Props.C07.mac1_truncation", "Psec.Props.C07.mac3_truncation", "Psec.Props.C07.retailMac_eq_mac3", "Psec.Props.C07.retail_single_block", "Psec.Props.C07.mac_bad_padding"]
 TRUSTED_BASE = ["Lean 4.33 kernel", "library model of CBC update() incl. a second update on the open encryptor (Cipher/Iface.lean)",
                 "Spec/ISO9797.lean is my reading of ISO/IEC 9797-1", "correspondence harness and compiled driver"]
 RULE = ("key sizes 8/16/24 and 16/24/32 (plus invalid) x message lengths 0..5 blocks at every residue x padding 1,2,3 (plus invalid selectors) "
@@ -65,6 +65,14 @@ def generate(rng, tier, seed):
                         if rep[i] != "ok\t" + enc_b(r.value):
                             return f"retail MAC {r.value.hex()} != ISO 9797-1 algorithm 3 {rep[i]}"
                     c.pred("retail MAC = ISO 9797-1 algorithm 3", p)
+                    if r.ok:
+                        # MacCbc.retailMac_is_cbc_then_ecb on the implementation
+                        pd = c.call("mac.pad_iso_%d" % padding, data, 8)
+                        ct = c.call("des.encrypt_tdes_cbc", k1, bytes(8), pd.value) if pd.ok else pd
+                        d_ = c.call("des.decrypt_tdes_ecb", k2, bytes(ct.value)[-8:]) if ct.ok else ct
+                        e_ = c.call("des.encrypt_tdes_ecb", k1, d_.value) if d_.ok else d_
+                        if not (e_.ok and bytes(e_.value)[:m] == r.value):
+                            c.fail("retail MAC != encrypt_tdes_ecb(k1, decrypt_tdes_ecb(k2, last block of encrypt_tdes_cbc(k1, zero IV, padded message)))")
                     yield c
     # long messages around the sizes an implementation might chunk or buffer at
     for ln in core.big_lengths(rng, tier, 16):
